@@ -418,6 +418,13 @@ def export_model(m, rec, spec, want, nwin):
                 return h.reshape(h.shape[0] * h.shape[1], -1)
             rec.run('Hb_last', hb_last)
         out['H_bond_0_none'] = Hb[0] is None
+        # raw bond operators for the correspondence stream c10_bond (Model/BondSum.v): H_bond[j] as a matrix
+        # in the kron order (site j-1) x (site j) of the sites' own bases, and whether the entry is None
+        out['H_bond_none'] = [h is None for h in Hb]
+        for j_, h_ in enumerate(Hb):
+            if h_ is not None:
+                a_ = h_.transpose(['p0', 'p1', 'p0*', 'p1*']).to_ndarray()
+                rec.mats['Hb/%d' % j_] = a_.reshape(a_.shape[0] * a_.shape[1], -1)
     if finite:
         def ed_mpo():
             ed = ED.ExactDiag(m)
@@ -622,11 +629,30 @@ def list_models():
     return out
 
 
+def run_split_terms(cases):
+    """MultiCouplingTerms.add_multi_coupling_term on a fresh container: the stored form (path in terms_left, path in
+    terms_right, connection) read back with export_multi.  Operator names are arbitrary strings here."""
+    from tenpy.networks.terms import MultiCouplingTerms
+    out = []
+    for c in cases:
+        try:
+            ct = MultiCouplingTerms(c['L'])
+            sw = c['switchLR']
+            ct.add_multi_coupling_term(dec(c['strength']), list(c['ijkl']), list(c['ops']), c['op_string'], sw)
+            out.append({'stored': export_multi(ct), 'n_connections': len(ct.connections)})
+        except Exception as e:
+            out.append({'error': type(e).__name__ + ': ' + str(e)[:200]})
+    return out
+
+
 def main():
     fin, fout = sys.argv[1], sys.argv[2]
     payload = json.load(open(fin))
     if payload.get('kind') == 'list_models':
         json.dump(list_models(), open(fout, 'w'))
+        return
+    if payload.get('kind') == 'split_terms':
+        json.dump(run_split_terms(payload['cases']), open(fout, 'w'))
         return
     out = []
     base = os.path.splitext(fout)[0]
